@@ -13,25 +13,27 @@ COMBOS = [("accepted relay block", True, True, 0), ("rejected relay block", Fals
 
 def stage(chk, quick, rng, pid, cfg, keys, build_universe):
     try:
-        stops, sw = hd.stop_points()
+        sw = hd.probe_switches(lambda: build_universe(cfg, keys)[:3])
     except Unmappable as e:
-        chk.model_drift("hand-over: the source lines Handover names cannot be located (%s); two-thread schedules skipped" % e)
+        chk.model_drift("hand-over: the effects Handover names do not occur in a rejected delivery (%s); two-thread schedules skipped" % e)
         return 0
+    stops = None
     # ---- design level: the repaired order holds the P invariants in every interleaving; each repair is necessary
     for (name, xv, xd, irt) in COMBOS:
-        c = {"XValid": xv, "XValidated": xd, "MinerOn": True, "EmitHist": False, "SaveAfterValidation": True, "SelectiveClear": True}
+        c = {"XValid": xv, "XValidated": xd, "MinerOn": True, "EmitHist": False, "SaveAfterValidation": True, "SelectiveClear": True, "AtomicRollback": True}
         r = tracecheck.model("MC_Handover", "MSpec", c, workers=2, timeout=600, view="View", invariants=P_INV, properties=["A_C12_AdoptedAtHandOver"])
         tlc.require_clean(r, "MC_Handover")
         chk.add_tlc("MC_Handover (%s x found block, every interleaving of the source lines)" % name, r, constants=str(c))
         if r.violated:
             return machinery_failure(pid, "Handover (repaired order) violates %s" % r.violated)
     base = {"XValid": False, "XValidated": True, "MinerOn": True, "EmitHist": False}
-    for (sav, sel, inv, fid) in ((False, True, "I_C09_RejectedNotStored", "F-C09c"), (True, False, "I_C12_FoundStored", "F-C12d")):
-        rw = tracecheck.model("MC_Handover", "MSpec", dict(base, SaveAfterValidation=sav, SelectiveClear=sel), workers=2, timeout=600, view="View", invariants=[inv])
+    for (sav, sel, atom, inv, fid) in ((False, True, True, "I_C09_RejectedNotStored", "F-C09c"), (True, False, True, "I_C12_FoundStored", "F-C12d"),
+                                       (True, True, False, "I_C12_FoundStored", "F-C12d (stale rollback)")):
+        rw = tracecheck.model("MC_Handover", "MSpec", dict(base, SaveAfterValidation=sav, SelectiveClear=sel, AtomicRollback=atom), workers=2, timeout=600, view="View", invariants=[inv])
         chk.add_tlc("Handover witness run for %s (order before the repair)" % fid, rw, expect_violation=inv)
         if not rw.violated:
             return machinery_failure(pid, "vacuity: Handover without the repair of %s does not violate %s" % (fid, inv))
-    ro = tracecheck.model("MC_Handover", "MSpec", dict(base, XValid=True, SaveAfterValidation=True, SelectiveClear=True), workers=2, timeout=600, view="View",
+    ro = tracecheck.model("MC_Handover", "MSpec", dict(base, XValid=True, SaveAfterValidation=True, SelectiveClear=True, AtomicRollback=True), workers=2, timeout=600, view="View",
                           invariants=["O_FoundStaysServed"])
     chk.add_tlc("Handover observation: last writer wins on ChainManager.coinstate (a block adopted by one thread can drop out of the served state; "
                 "outside the wording of C09/C12, not judged)", ro, expect_violation="O_FoundStaysServed")
@@ -40,7 +42,7 @@ def stage(chk, quick, rng, pid, cfg, keys, build_universe):
     n = 45 if quick else 700
     nfeas = ntot = 0
     for (name, xv, xd, irt) in COMBOS:
-        c = {"XValid": xv, "XValidated": xd, "MinerOn": True, "EmitHist": True, "SaveAfterValidation": sw["SaveAfterValidation"], "SelectiveClear": sw["SelectiveClear"]}
+        c = {"XValid": xv, "XValidated": xd, "MinerOn": True, "EmitHist": True, "SaveAfterValidation": sw["SaveAfterValidation"], "SelectiveClear": sw["SelectiveClear"], "AtomicRollback": sw["AtomicRollback"]}
         rg = tracecheck.model("MC_Handover", "MSpec", c, workers=1, timeout=900, invariants=["I_Emit"])
         tlc.require_clean(rg, "MC_Handover gen")
         hs = tlc.tagged(rg, "HIST")
@@ -64,7 +66,7 @@ def stage(chk, quick, rng, pid, cfg, keys, build_universe):
             info[tid] = {"delivery": name, "schedule": [[s["t"], s["a"]] for s in h], "feasible_as_dictated": feas, "why_not": why, "observed": obs}
             chk.case(("handover", name, json.dumps(info[tid]["schedule"])), nontrivial=True)
         chk.sample({"two_thread_schedule_of_the_node": info[tid]})
-        tc = {"XValid": xv, "XValidated": xd, "MinerOn": True, "SaveAfterValidation": sw["SaveAfterValidation"], "SelectiveClear": sw["SelectiveClear"]}
+        tc = {"XValid": xv, "XValidated": xd, "MinerOn": True, "SaveAfterValidation": sw["SaveAfterValidation"], "SelectiveClear": sw["SelectiveClear"], "AtomicRollback": sw["AtomicRollback"]}
         verdicts, r2 = tracecheck.run("TraceHandover", traces, tc, ids=[t["id"] for t in traces], workers=2, timeout=1200)
         chk.states += r2.distinct
         chk.traces_validated += len(traces)
